@@ -22,9 +22,9 @@ MUTANTS = [
     {"name": "quorum-ge-to-gt", "file": "src/broker/update.rs", "old": ".filter(|(_, v)| v.len() >= failure_quorum as usize)", "new": ".filter(|(_, v)| v.len() > failure_quorum as usize)", "expect": "C18.D2:quorum"},
     {"name": "ttl-lt-to-le-swapped", "file": "src/broker/update.rs", "old": "now - report_datetime < failure_ttl", "new": "failure_ttl >= now - report_datetime", "expect": "C18.D2:fresh"},
     {"name": "ttl-inverted", "file": "src/broker/update.rs", "old": "now - report_datetime < failure_ttl", "new": "now - report_datetime > failure_ttl", "expect": "C18.D2:fresh"},
-    {"name": "add_proxy-keeps-failures", "file": "src/broker/update.rs", "old": "        cleared = self.store.failures.remove(&proxy_address).is_some() || cleared;\n", "new": "", "expect": "C18.D3:add_proxy"},
+    {"name": "add_proxy-keeps-failures", "file": "src/broker/update.rs", "old": "        cleared = self.store.failures.remove(&proxy_address).is_some() || cleared;\n", "new": "", "expect": "C18.D3"},
     {"name": "add_failure-no-early-return", "file": "src/broker/update.rs", "old": "            .map(|failures| failures.contains_key(&reporter_id))\n        {\n            return false;\n        }", "new": "            .map(|failures| failures.contains_key(&reporter_id))\n        {\n            info!(\"dup\");\n        }", "expect": "C18.D1"},
-    {"name": "unknown-proxy-not-filtered", "file": "src/broker/update.rs", "old": "                if all_proxies.contains_key(address) {\n                    Some(address.clone())\n                } else {\n                    None\n                }", "new": "                let _ = all_proxies;\n                Some(address.clone())", "expect": "C18.D2:registered"},
+    {"name": "unknown-proxy-not-filtered", "file": "src/broker/update.rs", "old": "                if all_proxies.contains_key(address) {\n                    Some(address.clone())\n                } else {\n                    None\n                }", "new": "                let _ = all_proxies;\n                Some(address.clone())", "expect": "C18.D2"},
     {"name": "service-quorum-constant", "file": "src/broker/service.rs", "old": "let failure_quorum = self.config.failure_quorum;", "new": "let failure_quorum = 1;", "expect": "C18.D4"},
 ]
 
